@@ -16,6 +16,7 @@ PROPS = {
     "C05": dict(level="exploration", shards=(4, 16), timeout=(900, 3000), assumptions=COMMON + ["loopback TCP / WebSocket deliver bytes in order; quiescence is detected by waiting (up to 5 s, 20 s on the confirming re-run) until the expected number of stanzas was routed"]),
     "C06": dict(level="exploration", shards=(2, 16), timeout=(300, 1500), assumptions=COMMON),
     "C09": dict(level="exploration", shards=(4, 16), timeout=(600, 3000), assumptions=COMMON + ["loopback TCP delivers bytes in order; the scripted peer's own count of stanzas it sent is the wire truth"]),
+    "C10": dict(level="exploration", shards=(4, 16), timeout=(900, 3000), assumptions=COMMON + ["the order in which the scripted peer receives elements is the wire order; quiescence after each step is detected by waiting for the expected number of elements (4 s, 16 s on the confirming re-run) plus a short settle time"], race=dict(pattern="^TestC10_smqueue$", shards=(2, 8), timeout=(900, 3000), scale=0.25, quick=False)),
     "C12": dict(level="fault_enumeration", shards=(8, 16), timeout=(900, 3000), assumptions=COMMON + ["a half-close on loopback TCP delivers all previously written bytes, then EOF", "stable state is detected by polling runtime.Stack for up to 3 s (12 s on the confirming re-run)"]),
     "C14": dict(level="exploration", shards=(4, 16), timeout=(600, 3000), assumptions=COMMON + ["loopback TCP delivers bytes in order; the scripted peer's transcript is what the client wrote"]),
     "C15": dict(level="exploration", shards=(2, 16), timeout=(300, 1500), assumptions=COMMON, fuzz=[("FuzzC15", 60)]),
@@ -29,6 +30,11 @@ NOT_APPLICABLE = {}
 
 # Texts for MANIFEST.json
 TEXT = {
+    "C10": dict(
+        technique="history-based model test (rapid): generated Send/SendRaw/ack histories on a real Client; reference model of the held queue driven by the wire truth recorded by the scripted peer; -race pass in the thorough tier",
+        level_text="Exploration: generated outbound histories (Send, SendRaw, SendIQ, Send(SMRequest), server <r/>, server <a h=N/> with N below / equal to / above the number received, stale and repeated, concurrent bursts) run against a real stream-managed Client; the peer records every element in arrival order; after every step the client's queue must equal the unacknowledged wire stanzas of the model, and after <a h=N/> exactly the stanzas beyond N must arrive again in order followed by one <r/> (nothing when none is left); <r/>/<a/> are never held.",
+        level_note="1200 histories quick, 40k thorough plus a -race pass. The initial presence written by Connect counts for the server's h but was not accepted by an application Send: whether it is held is not asserted. Under concurrent senders queue and wire are compared as multisets.",
+    ),
     "C04": dict(
         technique="exhaustive enumeration of the TLS configuration/fault space + rapid sampling; real TLS handshakes with generated certificates; transcript oracle (clear-text vs inside-TLS)",
         level_text="Fault enumeration: every combination of client settings (Insecure, TLSConfig nil / test CA / InsecureSkipVerify, ServerName unset / domain / other), server STARTTLS behaviour (absent, offered, required; proceed, failure, unexpected, malformed, close), certificate (valid, wrong host, untrusted, expired, other-name-only, both) and first connection / reconnection is run against the scripted peer with a real TLS handshake (3240 combinations: all in the thorough tier, a seed-selected tenth plus 400 random ones in the quick tier). The peer tags each received element as clear text or inside TLS: no <auth/> or stanza may appear in clear text with Insecure off, none inside TLS when the certificate does not validate, and the legitimate combinations must authenticate inside TLS.",
